@@ -992,7 +992,35 @@ func (st *State) applyContract(fct *FuncContract, fn *types.Func, recv *Val, arg
 		if g.Kind != "ghost" {
 			continue
 		}
-		// function-level ghost variables of the callee are existentially quantified for the caller: fresh symbols
+		// a ghost that the callee never reassigns is a name for an entry-state expression: evaluate it in the
+		// state before the call; other function-level ghosts are existentially quantified for the caller: fresh symbols
+		reassigned := false
+		for _, a := range fct.Anchors {
+			for _, c := range a.Clauses {
+				if c.Kind == "ghost" && c.Name == g.Name {
+					reassigned = true
+				}
+			}
+		}
+		if !reassigned && !(g.Expr.Op == "call" && (g.Expr.Text == "anyseq" || g.Expr.Text == "witness" || g.Expr.Text == "seqdef")) {
+			var ev Val
+			ok := func() (ok bool) {
+				defer func() {
+					if r := recover(); r != nil {
+						if _, isVC := r.(vcErr); !isVC {
+							panic(r)
+						}
+						ok = false
+					}
+				}()
+				ev = mkEnv(st, names, old).inOld().eval(g.Expr)
+				return true
+			}()
+			if ok {
+				rn[g.Name] = ev
+				continue
+			}
+		}
 		if g.Expr.Op == "call" && (g.Expr.Text == "anyseq" || g.Expr.Text == "idseq") {
 			rn[g.Name] = vRaw(fc.fresh("ghost_"+g.Name, "(Array Int Int)"), "(Array Int Int)")
 		} else {
@@ -1293,6 +1321,15 @@ func (st *State) resolveTarget(env *SpecEnv, e *SNode, add func(name, sort strin
 		base := env.eval(e.Args[0])
 		if base.K == KInt && base.T != nil {
 			if s, structT := structOf(base.T); s != nil {
+				if gh := ghostFieldHeap(structT, e.Text); gh != "" {
+					// a ghost field of the object
+					if srt := ghostFieldSort(structT, e.Text); srt != "(Array Int Int)" {
+						add(gh, srt, true, target{kind: "maprow", arr: base.S, lo: "0", hi: "0"})
+					} else {
+						add(gh, srt, false, target{kind: "field", ref: base.S})
+					}
+					return
+				}
 				_, comps, _ := fieldComps(structT, e.Text)
 				if comps == nil {
 					// promoted field of an embedded struct (one level)
